@@ -67,6 +67,9 @@ pub enum Op {
     Save { path: String },
     /// textDocument/didChange with an empty contentChanges array (legal; changes nothing)
     EmptyChange { path: String },
+    /// textDocument/didChange carrying TWO full-text changes: they apply in order, so the
+    /// document ends up with `text` (the second one); `first` is only passed through
+    Change2 { path: String, first: String, text: String },
     Close { path: String },
     DiskWrite { path: String, text: String },
     DiskRemove { path: String },
@@ -93,6 +96,7 @@ impl Op {
             Op::Cancel { .. } => "Cancel",
             Op::Save { .. } => "Save",
             Op::EmptyChange { .. } => "EmptyChange",
+            Op::Change2 { .. } => "Change2",
             Op::Close { .. } => "Close",
             Op::DiskWrite { .. } => "DiskWrite",
             Op::DiskRemove { .. } => "DiskRemove",
@@ -151,6 +155,7 @@ impl Scenario {
                 | Op::Request { path, .. }
                 | Op::Save { path }
                 | Op::EmptyChange { path }
+                | Op::Change2 { path, .. }
                 | Op::Close { path }
                 | Op::DiskWrite { path, .. }
                 | Op::DiskRemove { path }
